@@ -91,7 +91,7 @@ theorem C19_no_stall (c : Cfg) (hbs : 1 ≤ c.bs) (as : List Act) (s : State)
         simp only [step, hpc, hq]
         rw [if_pos]
         · simp
-        · refine ⟨by omega, .inr (.inl ⟨trivial, trivial, by omega⟩)⟩
+        · refine ⟨by omega, .inr (.inr (.inl ⟨trivial, trivial, by omega⟩))⟩
       · refine .inr (.inr (.inr ⟨.timeout, by simp, ?_⟩))
         simp only [step, hpc, hq]
         rw [if_pos]
@@ -121,15 +121,16 @@ theorem C19_t0_meaning (c : Cfg) (hbs : 1 ≤ c.bs) (as : List Act) (s s' : Stat
 /-- **A short batch only at the end marker or at expiry, and then nothing was missed.**
     Whenever a batch with fewer than `batch_size` items is handed out (the `emit` step from `s`; the
     batch is `s.cur`), either the end marker has just been taken — it is the last thing the batcher
-    took, right after the items of this batch — or the clock stands exactly at `t0 + wait` (`t0` = when
-    the batch's first item was obtained) and every arrival stamped before `t0 + wait` is already in this
-    or an earlier batch: no further item arrived within the wait time. -/
+    took, right after the items of this batch — or the wait has expired (clock ≥ `t0 + wait`, `t0` =
+    when the batch's first item was obtained; with zero processing time the clock stands *exactly* at
+    `t0 + wait`) and every arrival stamped before `t0 + wait` is already in this or an earlier batch:
+    no further item arrived within the wait time.  Holds for `strict` and non-`strict` time alike. -/
 theorem C19_short_only_if (c : Cfg) (hbs : 1 ≤ c.bs) (as : List Act) (s s' : State)
     (h : Core.run (step c) init as = some s) (he : step c s .emit = some s')
     (hshort : s.cur.length < c.bs) :
     s'.out = s.out ++ [s.cur] ∧
     ((s.fin = true ∧ s.taken = s.out.flatten ++ s.cur ++ [c.endm]) ∨
-     (s.fin = false ∧ s.clock = s.t0 + c.wait ∧
+     (s.fin = false ∧ s.t0 + c.wait ≤ s.clock ∧ (c.strict = true → s.clock = s.t0 + c.wait) ∧
         arrivedBefore s (s.t0 + c.wait) ≤ (s.out.flatten ++ s.cur).length)) := by
   have hi := all_reachable c hbs ⟨as, h⟩
   simp only [step] at he
@@ -142,8 +143,8 @@ theorem C19_short_only_if (c : Cfg) (hbs : 1 ≤ c.bs) (as : List Act) (s s' : S
     · left; refine ⟨hf, ?_⟩; have := hi.tak; simpa [hf] using this
     · right
       have hf' : s.fin = false := by simpa using hf
-      obtain ⟨h4, h5⟩ := h3 hf' hshort
-      refine ⟨hf', h4, ?_⟩
+      obtain ⟨h4, h4', h5⟩ := h3 hf' hshort
+      refine ⟨hf', h4, h4', ?_⟩
       have := hi.tak
       rw [this] at h5; simpa [hf'] using h5
   · simp at he
@@ -158,7 +159,7 @@ theorem C19_short_only_if_forever (c : Cfg) (hbs : 1 ≤ c.bs) (as bs : List Act
     arrivedBefore s2 (s.t0 + c.wait) ≤ (s.out.flatten ++ s.cur).length := by
   obtain ⟨_, h1 | h1⟩ := C19_short_only_if c hbs as s s' h he hshort
   · simp [hf] at h1
-  · obtain ⟨_, hc, hb⟩ := h1
+  · obtain ⟨_, hc, _, hb⟩ := h1
     have hrun : Core.run (step c) s (.emit :: bs) = some s2 := by
       rw [Core.run_cons, he]; simpa using h2
     rw [arrivedBefore_stable c (.emit :: bs) s s2 _ hrun (by omega)]
@@ -166,12 +167,17 @@ theorem C19_short_only_if_forever (c : Cfg) (hbs : 1 ≤ c.bs) (as bs : List Act
 
 /-- the same fact at the moment of detection (the form used in DESIGN §5): a step that ends the
     collection of a batch with fewer than `batch_size` items is either the `take` of an end marker or a
-    `timeout`, and the latter only with an empty queue at a clock value ≥ `t0 + wait` -/
-theorem C19_short_only_if_detect (c : Cfg) (s s' : State) (a : Act)
+    `timeout`, and the latter only with an empty queue at a clock value ≥ `t0 + wait` — at that moment
+    everything that has arrived so far (whatever its stamp, ties included) is in an earlier batch or in
+    this one -/
+theorem C19_short_only_if_detect (c : Cfg) (hbs : 1 ≤ c.bs) (as : List Act) (s s' : State) (a : Act)
+    (h : Core.run (step c) init as = some s)
     (hst : step c s a = some s') (h1 : s.pc ≠ .flush) (h2 : s'.pc = .flush)
     (hshort : s'.cur.length < c.bs) :
     (a = .take ∧ ∃ z rest, s.q = z :: rest ∧ c.isEnd z = true ∧ s'.fin = true) ∨
-    (a = .timeout ∧ s.q = [] ∧ s.t0 + c.wait ≤ s.clock) := by
+    (a = .timeout ∧ s.q = [] ∧ s.t0 + c.wait ≤ s.clock ∧
+      s.arrived.map (·.1) = s.out.flatten ++ s.cur ∧ s'.cur = s.cur) := by
+  have hi := all_reachable c hbs ⟨as, h⟩
   have hs := step_sound c s s' a hst
   cases hs with
   | arrive x => exact absurd h2 h1
@@ -188,35 +194,43 @@ theorem C19_short_only_if_detect (c : Cfg) (s s' : State) (a : Act)
     split at h2
     · simp at h2
     · simp at hshort; omega
-  | timeout hpc hq ht => exact .inr ⟨rfl, hq, ht⟩
+  | timeout hpc hq ht =>
+    refine .inr ⟨rfl, hq, ht, ?_, rfl⟩
+    have hf := (hi.coll hpc).2.2.1
+    rw [hi.arr, hi.tak]; simp [hq, hf]
   | emit hpc => simp at h2
   | resume hpc => simp only at h2; split at h2 <;> simp at h2
   | stop hpc => simp at h2
 
-/-- **No delay.**  Once the batch is complete, expired or cut by the end marker (`flush`), or the
-    generator is on its way out (`closing`), no time can pass before the batch is handed out resp.
-    the generator returns: every `tick` is disabled and the `emit` resp. `stop` step is enabled. -/
-theorem C19_no_delay (c : Cfg) (s : State) :
+/-- **No delay** (zero processing time, `c.strict`).  Once the batch is complete, expired or cut by
+    the end marker (`flush`), or the generator is on its way out (`closing`), no time can pass before
+    the batch is handed out resp. the generator returns: every `tick` is disabled and the `emit` resp.
+    `stop` step is enabled (so the only things that can come in between are arrivals at that same
+    instant).  In other words the code has no blocking operation between noticing and yielding. -/
+theorem C19_no_delay (c : Cfg) (hs : c.strict = true) (s : State) :
     (s.pc = .flush → (∀ d, step c s (.tick d) = none) ∧ (step c s .emit).isSome) ∧
     (s.pc = .closing → (∀ d, step c s (.tick d) = none) ∧ (step c s .stop).isSome) := by
-  constructor <;> intro hpc <;> simp [step, hpc]
+  constructor <;> intro hpc <;> simp [step, hpc, hs]
 
 /-- time passes only while the batcher is blocked: whenever a `tick` is possible none of the
     batcher's own steps is (so in particular a queued item or end marker is taken at once, and an
     expired wait is noticed at once) -/
-theorem C19_tick_only_when_blocked (c : Cfg) (s s' : State) (d : Nat)
+theorem C19_tick_only_when_blocked (c : Cfg) (hstrict : c.strict = true) (s s' : State) (d : Nat)
     (ht : step c s (.tick d) = some s') : ∀ a ∈ batcherActs, step c s a = none := by
   have hs := step_sound c s s' (.tick d) ht
   cases hs with
   | tick _ hd hg =>
     intro a ha
     simp only [batcherActs, List.mem_cons, List.not_mem_nil, or_false] at ha
-    rcases hg with hg | hg | hg | hg <;> rcases ha with rfl | rfl | rfl | rfl <;> simp [step, hg] <;>
-      first | omega | (split <;> rfl)
+    rcases hg with hg | hg | hg | hg | hg
+    · simp [hstrict] at hg
+    all_goals
+      rcases ha with rfl | rfl | rfl | rfl <;> simp [step, hg] <;>
+        first | omega | (split <;> rfl)
 
 /-- the timed wait is never overslept: while collecting, the clock is within `[t0, t0 + wait]`, so
     expiry is noticed at exactly `t0 + wait` -/
-theorem C19_timeout_exact (c : Cfg) (hbs : 1 ≤ c.bs) (as : List Act) (s s' : State)
+theorem C19_timeout_exact (c : Cfg) (hbs : 1 ≤ c.bs) (hstrict : c.strict = true) (as : List Act) (s s' : State)
     (h : Core.run (step c) init as = some s) (ht : step c s .timeout = some s') :
     s.clock = s.t0 + c.wait ∧ s'.clock = s.clock := by
   have hi := all_reachable c hbs ⟨as, h⟩
@@ -224,6 +238,7 @@ theorem C19_timeout_exact (c : Cfg) (hbs : 1 ≤ c.bs) (as : List Act) (s s' : S
   cases hs with
   | timeout hpc hq hge =>
     obtain ⟨_, _, _, _, hle⟩ := hi.coll hpc
+    have := hle hstrict
     exact ⟨by omega, rfl⟩
 
 /-- arrival stamps are the clock values at the arrivals: nondecreasing and never in the future -/
@@ -237,7 +252,7 @@ theorem C19_stamps (c : Cfg) (hbs : 1 ≤ c.bs) (as : List Act) (s : State)
 /-- `batch_size = 3`, `wait = 5`: items 1, 2 arrive at clocks 0 and 2, nothing else until 5: the short
     batch `[1, 2]` is handed out at clock 5 = t0 + wait, not via the end marker -/
 example :
-    let c : Cfg := { bs := 3, wait := 5, endm := none }
+    let c : Cfg := { bs := 3, wait := 5, endm := none, strict := true }
     ∃ s s', Core.run (step c) init
         [.arrive (some 1), .take, .tick 2, .arrive (some 2), .take, .tick 3, .timeout] = some s ∧
       step c s .emit = some s' ∧ s.cur.length < c.bs ∧ s.fin = false ∧ s.clock = 5 ∧
@@ -248,7 +263,7 @@ example :
 /-- a tie: item 2 arrives at the very instant of the deadline (clock 5) and *before* the batcher
     looks — it is taken although the wait has expired; then the end marker cuts the batch short -/
 example :
-    let c : Cfg := { bs := 4, wait := 5, endm := none }
+    let c : Cfg := { bs := 4, wait := 5, endm := none, strict := true }
     ∃ s s', Core.run (step c) init
         [.arrive (some 1), .take, .tick 5, .arrive (some 2), .take, .arrive none, .take] = some s ∧
       step c s .emit = some s' ∧ s.cur.length < c.bs ∧ s.fin = true ∧
@@ -259,7 +274,7 @@ example :
 /-- custom end marker `7`: `None` is an ordinary item, what arrives after the marker is left alone,
     the consumer holds the first (full) batch for 9 clock units, the run ends `done` -/
 example :
-    let c : Cfg := { bs := 2, wait := 0, endm := some 7 }
+    let c : Cfg := { bs := 2, wait := 0, endm := some 7, strict := true }
     ∃ s, Core.run (step c) init
         [.arrive none, .arrive (some 3), .arrive (some 4), .take, .take, .emit, .tick 9, .arrive (some 7),
          .arrive (some 8), .resume, .take, .take, .emit, .resume, .stop] = some s ∧
@@ -268,10 +283,22 @@ example :
   refine ⟨_, rfl, ?_⟩
   decide
 
+/-- non-`strict` time: the batcher is delayed past its deadline (clock 5 > t0 + wait = 2), still takes
+    the item that is queued by then ("an item already available is taken even past the deadline"),
+    and hands out the short batch once it finds the queue empty, at clock 6 ≥ t0 + wait -/
+example :
+    let c : Cfg := { bs := 3, wait := 2, endm := none, strict := false }
+    ∃ s s', Core.run (step c) init
+        [.arrive (some 1), .take, .tick 5, .arrive (some 2), .take, .tick 1, .timeout] = some s ∧
+      step c s .emit = some s' ∧ s.cur.length < c.bs ∧ s.fin = false ∧ s.t0 = 0 ∧ s.clock = 6 ∧
+      s'.out = [[some 1, some 2]] := by
+  refine ⟨_, _, rfl, rfl, ?_⟩
+  decide
+
 /-- `C19_no_stall`'s third alternative is reachable: waiting in the timed get, time may pass up to
     the deadline -/
 example :
-    let c : Cfg := { bs := 2, wait := 4, endm := none }
+    let c : Cfg := { bs := 2, wait := 4, endm := none, strict := true }
     ∃ s, Core.run (step c) init [.arrive (some 1), .take, .tick 1] = some s ∧
       s.pc = .coll ∧ s.q = [] ∧ (step c s (.tick 3)).isSome ∧ step c s (.tick 4) = none := by
   refine ⟨_, rfl, ?_⟩
